@@ -62,7 +62,7 @@ def run(ctx):
     # wall-clock bounds: a machine that is busy can delay one wake-up by more than the slack; a
     # scenario counts only if it misses its bound in three runs out of three
     def timing(b):
-        return b.startswith("WaitTimeout (returned outside") or b.startswith("WaitTimeout (did not return promptly")
+        return b.startswith("WaitTimeout (")
     def key(b):
         f = b.split(": ", 1)[1].split()
         return (f[1], f[2])
